@@ -341,6 +341,12 @@ def run(c, chk):
         else:
             chk.fail('R14.5', 'validcb2-missing:%s' % fname, c.where(fn), '%s() never consults the pre-set validation callback' % fname)
 
+    # ---- R14.10: a value the parse callback accepted is stored: nothing after the callback judges it by what is in errno
+    chk.rule('R14.10', 'no decision of the value store reads errno unless the library stored a value into it first on that path (an accepting parse callback may leave anything there)')
+    from . import c08 as _c08e
+    if not _c08e.errno_reads(c, _c08e.chk_proxy(chk, {'R8.6': 'R14.10'}), 'R8.6', funcs={'cfg_setopt'}):
+        chk.ok('R14.10', 'cfg_setopt', 'does not read errno', nontrivial=False)
+
     # ---- R14.9: "the stored value is the one it produced": what a parse callback returns is copied before anything of the
     # option is released (the callback may hand back the option's own current string)
     from . import c09 as _c09, c08 as _c08
